@@ -31,9 +31,18 @@ type MockSpec struct {
 	Name     string
 	Stub     bool
 	Resets   bool
+	SkipEnsure bool
 	Other    bool   // generated into the mocks package
 	File     string // relative path of the emitted file
 	Shape    string
+}
+
+// StaticFinding is a static-oracle finding about one request of the batch.
+type StaticFinding struct {
+	Mock string
+	Prop string
+	Msg  string
+	Argv []string
 }
 
 // Batch is a built scratch module.
@@ -43,6 +52,7 @@ type Batch struct {
 	IRoot   string // isync variant
 	Mocks   []MockSpec
 	Skipped []string // requests left out because the output does not type-check (C01's business)
+	Static  []StaticFinding // what the static oracles say about every request of the batch (incl. the ones left out)
 	Bins    map[string]string
 }
 
@@ -74,6 +84,7 @@ func Build(work string, mq *runner.Moq, t *gen.Tree, rng *rand.Rand, variants []
 		out  []byte
 		ok   bool
 		why  string
+		static []StaticFinding
 	}
 	var reqs []*req
 	cfgs := [][2]bool{{false, false}, {true, false}, {false, true}, {true, true}}
@@ -88,8 +99,9 @@ func Build(work string, mq *runner.Moq, t *gen.Tree, rng *rand.Rand, variants []
 			name := fmt.Sprintf("%sR%d", ifc.Name, j)
 			spec := MockSpec{Iface: ifc, Name: name, Stub: c[0], Resets: c[1], Other: other, Shape: ifc.Shape()}
 			args := cfgArgs(c[0], c[1])
-			if ifc.NeedsSkipEnsure {
+			if ifc.NeedsSkipEnsure || (k+j)%3 == 1 {
 				args = append(args, "-skip-ensure")
+				spec.SkipEnsure = true
 			}
 			if other {
 				args = append(args, "-pkg", "mocks")
@@ -118,6 +130,11 @@ func Build(work string, mq *runner.Moq, t *gen.Tree, rng *rand.Rand, variants []
 			dest, pkg = ostatic.DestOther, "mocks"
 		}
 		chk := ostatic.CheckOutput(lt, t.SrcPath, dest, pkg, res.Stdout)
+		fs, _ := ostatic.Analyse(chk, ostatic.Request{Ifaces: []ostatic.NamePair{{Iface: r.spec.Iface.Name, Mock: r.spec.Name}}, Stub: r.spec.Stub, WithResets: r.spec.Resets,
+			SkipEnsure: r.spec.SkipEnsure, Dest: dest, PkgName: pkg})
+		for _, f := range fs {
+			r.static = append(r.static, StaticFinding{Mock: r.spec.Name, Prop: f.Prop, Msg: f.Msg, Argv: r.args})
+		}
 		if chk.ParseErr != nil || len(chk.TypeErrs) > 0 {
 			r.why = "output does not type-check: " + strings.Join(chk.ErrStrings(), "; ")
 			return
@@ -125,6 +142,7 @@ func Build(work string, mq *runner.Moq, t *gen.Tree, rng *rand.Rand, variants []
 		r.out, r.ok = res.Stdout, true
 	})
 	for _, r := range reqs {
+		b.Static = append(b.Static, r.static...)
 		if !r.ok {
 			b.Skipped = append(b.Skipped, r.spec.Name+": "+r.why)
 			continue
